@@ -22,10 +22,10 @@ def tiers(quick_checks, thorough_checks, quick_shards=8, thorough_shards=16, **e
 PROPS = {}
 
 
-def prop(pid, test, quick, thorough, rule, bounds, technique, level_text, level_note, design_ref, assumptions=(), race=False):
+def prop(pid, test, quick, thorough, rule, bounds, technique, level_text, level_note, design_ref, assumptions=(), race=False, inflight=False):
     PROPS[pid] = dict(test=test, quick=quick, thorough=thorough, rule=rule, bounds=bounds, technique=technique,
                       level_text=level_text, level_note=level_note, design_ref=design_ref,
-                      assumptions=list(assumptions), race=race)
+                      assumptions=list(assumptions), race=race, inflight=inflight)
 
 
 q, t = tiers(12000, 400000)
@@ -189,3 +189,88 @@ prop("C13", "TestC13", q, t,
                 "(JSON: modulo insignificant whitespace) and contain their document; handlers must be called once per document and stop on false without over-reading.",
      level_note="The schedule is owned by the harness, so this is exhaustive in kind but sampled in combination. JSON raw is compared modulo whitespace outside strings (leniency 1).",
      design_ref="DESIGN.md section 4, C13")
+
+q, t = tiers(6000, 200000)
+prop("C14", "TestC14", q, t,
+     rule="C01-style documents whose leaf and attribute texts come from an 80-entry list (integers incl. 64-bit boundaries and one beyond, decimal/exponent/hex floats, overflowing numerals, every case/sign variant of "
+          "nan/inf/infinity, the ParseBool spellings and near misses, ordinary text) x all combinations of cast-int/float/bool, CastNanInf and a skip-tag function over a key subset; "
+          "NewMapXml(doc,true), NewMapXmlSeq(doc,true), x2j-wrapper.DocToJson. Non-trivial: >=1 leaf changes type, >=1 stays a string, >=1 switch is non-default; distinct = hash of the case.",
+     bounds="document depth <= 3, fan-out <= 4",
+     technique="property-based testing (rapid): structural comparison of cast vs un-cast decoding against a reference cast chain written over strconv; Json() as NaN/Inf oracle",
+     level_text="Generated-input search: decode(doc,false) must have only string leaves and equal the C01 reference; decode(doc,true) must have the same shape and keys with every leaf equal to refCast(text, switches, key); "
+                "no NaN/Inf unless CastNanInf, and then Json() must succeed; the sequence decoder and the wrapper must agree.",
+     level_note="Trusted: strconv and refCast. Which key the skip-tag function is asked about for text beside children only is undocumented: either is accepted and counted.",
+     design_ref="DESIGN.md section 4, C14")
+
+q, t = tiers(8000, 250000, t_fuzz=[dict(target="FuzzXML", seconds=120), dict(target="FuzzJSON", seconds=90), dict(target="FuzzArgs", seconds=120)])
+prop("C15", "TestC15", q, t,
+     rule="two populations: (bytes) generated XML documents (with prolog/BOM/comments), JSON encodings and gob encodings, each with 0-3 local mutations (truncate, overwrite, insert hostile token, delete, prepend junk, duplicate tail), "
+          "offered to every decoder incl. reader/raw/bulk forms, under default options plus one class with a single non-default decoder option; (args) Maps with exotic keys ('', '*', 'a.b', 'x[0]') x path/sub-key/pair/new-value "
+          "strings built from 37 hostile pieces, offered to every query and update method. Non-trivial: (bytes) the input is mutated; (args) an argument lies outside the clean grammar; distinct = hash of the case. "
+          "Thorough tier adds native coverage-guided fuzzing (FuzzXML, FuzzJSON, FuzzArgs) with the same oracles.",
+     bounds="documents depth <= 4, <= 3 mutations, argument strings <= 5 pieces; per-case watchdog 60 s",
+     technique="property-based testing (rapid) and native go fuzzing: totality (panic/hang/fatal crash capture) plus differential accept/reject against the strict encoding/xml tokenizer",
+     level_text="Generated-input search: no call may panic, hang (60 s watchdog) or kill the process (the in-flight case is kept on disk); NewMapXml must succeed exactly when the standard tokenizer accepts the first document and "
+                "return no Map with an error; NewMapXmlSeq must answer ok/NoRoot/error as the RawToken reference says; every decoded Map must survive the encoders; mutating methods must leave the Map unchanged when they return an error.",
+     level_note="Termination is approximated by a 60 s watchdog. A fatal runtime error (stack overflow) cannot be shrunk: the unshrunk in-flight case is reported.",
+     design_ref="DESIGN.md section 4, C15", inflight=True)
+
+q, t = tiers(5000, 150000)
+prop("C16", "TestC16", q, t,
+     rule="Maps from three sources (JSON-shaped values with attribute/text entries and occasional 24-key maps; decoded documents; MapSeqs of decoded documents), each rebuilt twice with generated insertion orders and map capacities, "
+          "encoded repeatedly through every encoder entry point (compact/indent/Writer/WriterRaw/Maps string forms/file forms x XML/JSON/Seq) with blank prefix/indent strings. "
+          "Non-trivial: an element with >=3 children or >=2 attributes (Seq: non-contiguous siblings, >=2 attributes or >=4 elements); distinct = hash of the case.",
+     bounds="depth <= 4, maps <= 28 keys, 3 rebuilt copies per case",
+     technique="property-based testing (rapid): metamorphic relation over insertion order/capacity (byte identity), ordering oracle on the token stream, agreement between ~25 encoder variants",
+     level_text="Generated-input search: all encodings of equal Maps must be byte-identical, attributes and children ascending (MapSeq: source order), indent == compact at token level (json.Compact for JSON), "
+                "Writer forms must write exactly the returned bytes, Maps string/file forms must be the concatenation of the per-Map encodings.",
+     level_note="Go's map iteration order is randomised per range statement, so repeated encodings inside one case already sample different orders; rebuilt copies add different hash layouts. XML *WriterRaw forms are commented out in the library and not claimed.",
+     design_ref="DESIGN.md section 4, C16")
+
+q, t = tiers(40, 400, t_ceiling_s=3300)
+prop("C17", "TestC17", q, t,
+     rule="a shared Map (decoded document or shape-first JSON value) and MapSeq, 2-8 goroutines each with a generated list of 5-30 operations out of 30 kinds (every read-only query and encoder on the shared values, Copy, gob, NewMap, "
+          "private decode/encode), Gosched every 1-4 operations, GOMAXPROCS in {2,4,16}; the same plans are first run sequentially, checking after every operation that the receiver equals its deep copy. "
+          "Non-trivial: >=2 goroutines touch the shared Map with >=2 different methods, at least one an encoder; distinct = hash of the case.",
+     bounds="<= 8 goroutines x <= 30 operations; documents depth <= 4",
+     technique="property-based testing (rapid) under the Go race detector (-race, halt_on_error): receiver-purity frame check per operation, Copy aliasing check, concurrent vs sequential result comparison",
+     level_text="Generated-schedule sampling: the race detector must report nothing while generated goroutine mixes run over one shared Map/MapSeq, every concurrent result must equal the sequential one, "
+                "and every read-only method must leave its receiver deeply equal to a prior deep copy; mutating every container of a Copy must not change the original and vice versa.",
+     level_note="Interleavings are sampled, not enumerated (the harness does not own the Go scheduler); the race detector flags any unsynchronised conflicting access that executes, whatever the timing. "
+                "An atomicity defect without a data race would be caught only by the result comparison. A race report ends the worker; its in-flight case is the replay.",
+     design_ref="DESIGN.md section 4, C17", race=True, inflight=True)
+
+q, t = tiers(1500, 40000)
+prop("C18", "TestC18", q, t,
+     rule="histories of 1-25 calls over 26 option setters (explicit, argument-less and repeated forms; attribute prefixes; punctuation key prefixes; both escaping switches; separators; array sizes), "
+          "followed by restoring every default in a generated order. Non-trivial: >=2 different setters and (both escaping switches, or >=2 key-prefix changes, or a toggle form); distinct = hash of the history.",
+     bounds="histories <= 25 calls",
+     technique="model-based (stateful) property testing with rapid: model of the documented option semantics compared after every call with the real option state (verif hook) and with a battery of black-box predictions",
+     level_text="Generated-history search: after every call the hook snapshot of all 32 option variables must equal the model, and the model's predictions must hold for Map decoding (cast and un-cast, vs the C01 reference), "
+                "sequence-decoder isolation from attribute prefix/lower-case/simple-as-map/seq-num/skip function, JSON isolation (JsonUseNumber only), Map/MapSeq encoder output, leaf paths and the sub-key separator; "
+                "after restoring defaults the state and a 16-item behaviour battery must equal those of a fresh process.",
+     level_note="Uses the add-only hook /repo/verif_hooks.go (build tag verif) for state comparison; every clause is also checked black-box. Key prefixes are single punctuation characters (the property's domain).",
+     design_ref="DESIGN.md section 4, C18")
+
+q, t = tiers(1200, 30000)
+prop("C19", "TestC19", q, t,
+     rule="1-6 Maps (JSON objects with braces/quotes/backslashes in keys and strings, or decoded XML documents), written with the four file writers (blank indent strings, safe on/off) into a per-case temp directory and read back "
+          "with the plain and Raw readers; then the file is truncated at a generated offset or one byte is overwritten, or a missing file / a directory is read; plus Gob/NewMapGob and Copy of a generated Map. "
+          "Non-trivial: >=2 Maps, at least one nested two levels; distinct = hash of the case.",
+     bounds="<= 6 Maps of depth <= 3 per file",
+     technique="property-based testing (rapid) with real files and injected file damage: round trip, truncation/corruption fault injection with an offset-based oracle",
+     level_text="Generated-input search: read-back count, order and content (JSON: equal to the original; XML: equal to decode of the Map's own encoding), Raw values containing each document, "
+                "truncation at offset t yields exactly the documents ending before t and an error iff t lies strictly inside a document, a corrupted byte never panics and leaves earlier Maps intact, unreadable files yield errors, gob and Copy are symmetric.",
+     level_note="gob itself decodes an empty list/map as nil; equality for the gob clause is taken up to that convention. File I/O happens in a scratch directory removed after each case.",
+     design_ref="DESIGN.md section 4, C19")
+
+q, t = tiers(4000, 120000)
+prop("C20", "TestC20", q, t,
+     rule="a generated document (C01 domain, default options) and a JSON-shaped value (shape-first incl. list-in-list, a booster with the key at two depths on one branch), a key/tag, plain/wildcard paths, flags and sub-keys; "
+          "per case 60 exported functions of j2x, x2j and x2j-wrapper are compared with their core composition. Non-trivial: >=2 of the compared query functions return non-empty results; distinct = hash of the case.",
+     bounds="document depth <= 4, value shape depth <= 5, paths <= 6 steps",
+     technique="property-based testing (rapid): differential testing of each wrapper against the documented composition of core functions; reference evaluator for the attribute-skipping walker",
+     level_text="Generated-input search: conversion wrappers must return the bytes of decode-then-encode with the same flags; path/key/leaf/update/new-map wrappers must equal the Map methods on the decoded document; "
+                "x2j-wrapper's own PathsForKey/PathForKeyShortest/ValuesFromKeyPath/ValuesAtKeyPath/ValuesForKey must agree with the core (attribute entries skipped at wildcard steps unless requested).",
+     level_note="Not compared (no core counterpart or a different contract): x2j-wrapper.DocValue/MapValue/NewAttributeMap/Unmarshal/WriteMap, the *Indent JSON forms, file-based bulk functions (C13 covers XmlMsgsFromReader).",
+     design_ref="DESIGN.md section 4, C20")
